@@ -45,3 +45,9 @@ package workflow
 //@   ensures forall k string :: indom(result, k) ==> result[k] != nil
 //@ func iface ExecutableWorkflow.Namespaces()
 //@ func iface ExecutableWorkflow.Input()
+//@   ensures result != nil
+//
+//@ func NewYAMLConverter
+//@   ensures result != nil
+//@ func NewExecutor
+//@   ensures [executor-or-error] (result1 == nil) != (result == nil)
